@@ -338,12 +338,6 @@ func (g *genState) hit(h hit) {
 	g.res.OracleHits = append(g.res.OracleHits, h)
 }
 
-func optCoq(b []byte, m *MV) string {
-	if m == nil {
-		return "None"
-	}
-	return "(Some (" + byteList(b) + ", " + m.Coq() + "))"
-}
 
 // one generated value of type e through the encoder and back
 func (g *genState) valueCase(e *entry) {
@@ -408,7 +402,7 @@ func (g *genState) valueCase(e *entry) {
 	}
 	g.res.Count("value:" + e.group)
 	c := Case{Kind: "enc", Type: e.name, ty: e.id, Bytes: hex.EncodeToString(b), Value: &mv, RT: rt}
-	c.coq = fmt.Sprintf("CEnc %d (%s) %s %s", e.id, mv.Coq(), vf.Bool(rt), byteList(b))
+	c.coq = fmt.Sprintf("PEnc %d (%s) %s %s", e.id, mv.Coq(), vf.Bool(rt), byteList(b))
 	g.add(c)
 }
 
@@ -448,7 +442,7 @@ func (g *genState) bytesCase(e *entry, b []byte, mut string) {
 	}
 	if !o.Accepted {
 		g.res.Count("reject:" + errClass(o.Err))
-		c.coq = fmt.Sprintf("CDec %d %s None", e.id, byteList(b))
+		c.coq = fmt.Sprintf("PDec %d %s None", e.id, byteList(b))
 		g.add(c)
 		return
 	}
@@ -473,7 +467,11 @@ func (g *genState) bytesCase(e *entry, b []byte, mut string) {
 		}
 		g.hit(hit{What: what, Type: e.name, Bytes: c.Bytes, Re: c.Re, Note: mut})
 	}
-	c.coq = fmt.Sprintf("CDec %d %s %s", e.id, byteList(b), optCoq(re, &mv))
+	if bytes.Equal(re, b) {
+		c.coq = fmt.Sprintf("PDecSame %d %s", e.id, byteList(b))
+	} else {
+		c.coq = fmt.Sprintf("PDec %d %s (Some %s)", e.id, byteList(b), byteList(re))
+	}
 	g.add(c)
 }
 
@@ -513,7 +511,7 @@ func (g *genState) itemCase(b []byte) {
 	}
 	if errs != "" {
 		g.res.Count("item_reject:" + errClass(errs))
-		c.coq = fmt.Sprintf("CItem %s None", byteList(b))
+		c.coq = fmt.Sprintf("PItem %s None", byteList(b))
 		g.add(c)
 		return
 	}
@@ -523,7 +521,11 @@ func (g *genState) itemCase(b []byte) {
 	}
 	g.res.Count("item_accept")
 	c.Acc, c.Re = true, hex.EncodeToString(re)
-	c.coq = fmt.Sprintf("CItem %s (Some %s)", byteList(b), byteList(re))
+	if bytes.Equal(re, b) {
+		c.coq = fmt.Sprintf("PItemSame %s", byteList(b))
+	} else {
+		c.coq = fmt.Sprintf("PItem %s (Some %s)", byteList(b), byteList(re))
+	}
 	g.add(c)
 }
 
@@ -631,14 +633,14 @@ func gen(seed uint64, n int, outDir, corpusDir string) {
 	handlerCampaign(g, n/4+50)
 
 	var sb strings.Builder
-	sb.WriteString("From VF.C14 Require Import Model.\nFrom VF.gen Require Import C14Schemas.\nLocal Open Scope N_scope.\nDefinition cases : list case := [\n")
+	sb.WriteString("From Coq Require Import Uint63.\nFrom VF.C14 Require Import Pack.\nFrom VF.gen Require Import C14Schemas.\nLocal Open Scope uint63_scope.\nDefinition cases : list pcase := [\n")
 	for i, c := range g.cases {
 		if i > 0 {
 			sb.WriteString(";\n")
 		}
 		sb.WriteString(c.coq)
 	}
-	sb.WriteString("].\nDefinition M := Eval vm_compute in mismatches all_schemas cases.\nPrint M.\n")
+	sb.WriteString("].\nDefinition M := Eval vm_compute in pmismatches all_schemas cases.\nPrint M.\n")
 	vf.WriteFile(filepath.Join(outDir, "Cases.v"), sb.String())
 	g.res.Cases = len(g.cases)
 	g.res.Distinct = len(g.distinct)
